@@ -910,8 +910,10 @@ func (e *env) collHistory(id int, witness bool) (string, interface{}) {
 		choice, a, ci int
 		lock       uint64
 		don        sdk.Dec
+		at         int64 // not before this block time
 	}
 	var forced []forcedOp
+	finale := false
 	for step := 0; step < nops; step++ {
 		prevNow := now
 		switch r.Intn(5) {
@@ -943,6 +945,9 @@ func (e *env) collHistory(id int, witness bool) (string, interface{}) {
 			forced = forced[1:]
 			choice, ci = fo.choice, fo.ci
 			now = prevNow + r.Range(0, 2)
+			if fo.at > now {
+				now = fo.at
+			}
 		}
 		var opCoq string
 		j := map[string]interface{}{"t": now, "c": ci}
@@ -1107,6 +1112,16 @@ func (e *env) collHistory(id int, witness bool) (string, interface{}) {
 				again.don = sdk.MustNewDecFromStr(donationStrs[r.Intn(len(donationStrs))])
 			}
 			forced = append(forced, again, forcedOp{choice: 60, a: lastDonate.a, ci: ci})
+		}
+		// every history ends with all contributors withdrawing after their lock has expired
+		if step == nops-1 && !finale && !witness {
+			finale = true
+			for cj, n := range collNames {
+				for _, cc := range k.GetCollectiveContributers(h, n) {
+					forced = append(forced, forcedOp{choice: 60, a: e.acctID[cc.Address], ci: cj, at: int64(cc.Locking) + r.Range(0, 1)})
+				}
+			}
+			nops += len(forced)
 		}
 		dl, nb, dj := e.deltas(h, bals)
 		bals = nb
